@@ -6,6 +6,7 @@ import (
 	"fmt"
 	"io"
 	"net"
+	"strings"
 	"time"
 
 	. "verifharness/lib"
@@ -119,15 +120,25 @@ func framerCases(c *Ctx, im *Impl, cf *CaseFile) {
 	for i := 0; i < 12; i++ {
 		lens = append(lens, r.Intn(600))
 	}
+	framerBoundaryCases(c, im, cf)
 	f := framer.New()
 	for _, l := range lens {
 		m := r.Bytes(l)
-		out := f.SendData(m)
-		cf.Add(fmt.Sprintf("inr (FSend %s %s)", Hx(m), Hx(out)), fmt.Sprintf("framer SendData len=%d", l))
+		if l > 2000 {
+			m = rampBytes(l, byte(r.Intn(251)))
+		}
+		var out []byte
+		if !safely(im, fmt.Sprintf("SendData of %d bytes", l), func() { out = f.SendData(m) }) {
+			continue
+		}
+		cf.Add(fmt.Sprintf("inr (FSend %s %s)", HxSmart(m), HxSmart(out)), fmt.Sprintf("framer SendData len=%d", l))
 		im.Count(fmt.Sprintf("senddata %d %x", l, m[:min(l, 16)]), l > 0)
 		im.Hist("framer:senddata")
-		if l > 65535 {
+		if l > 65535 { // outside the property's range: SendData does not refuse, it truncates the length
 			im.Hist("framer:senddata>65535")
+			if len(out) == l+2 && int(out[0])+256*int(out[1]) == l%65536 {
+				im.Extra["observation:SendData-of-64KiB-or-more"] = fmt.Sprintf("SendData(%d bytes) returns %d bytes with length prefix %d (= length mod 65536): not refused, silently truncated", l, len(out), int(out[0])+256*int(out[1]))
+			}
 		}
 		if l <= 65535 { // in the property's range: prefix is the length, body identical
 			if len(out) != l+2 || int(out[0])+256*int(out[1]) != l || !bytes.Equal(out[2:], m) {
@@ -142,140 +153,144 @@ func framerCases(c *Ctx, im *Impl, cf *CaseFile) {
 		nOps, nStreams = 1200, 2500
 	}
 	for i := 0; i < nOps; i++ {
-		fr := framer.New()
-		var stream []byte
-		for k := r.Intn(5); k >= 0; k-- {
-			stream = append(stream, fr.SendData(genFrameMsg(r))...)
-		}
-		if r.Chance(15) {
-			stream = append(stream, r.Bytes(r.Intn(4))...) // garbage tail: an incomplete next frame
-		}
-		var ops []string
-		chunks := cutStream(r, stream, nil, 4)
-		ci := 0
-		for steps := 0; steps < 60 && (ci < len(chunks) || steps < 10); steps++ {
-			switch k := r.Intn(10); {
-			case k < 4 && ci < len(chunks):
-				fr.RecvData(chunks[ci])
-				ops = append(ops, "FFeed "+Hx(chunks[ci]))
-				ci++
-			case k < 6:
-				ops = append(ops, "FReady "+CoqBool(fr.MessageReady()))
-			default:
-				m, err := fr.GetMessage()
-				if err != nil {
-					ops = append(ops, "FGet None")
-				} else {
-					ops = append(ops, "FGet (Some "+Hx(append([]byte{}, m...))+")")
+		safely(im, "random RecvData/MessageReady/GetMessage sequence", func() {
+			fr := framer.New()
+			var stream []byte
+			for k := r.Intn(5); k >= 0; k-- {
+				stream = append(stream, fr.SendData(genFrameMsg(r))...)
+			}
+			if r.Chance(15) {
+				stream = append(stream, r.Bytes(r.Intn(4))...) // garbage tail: an incomplete next frame
+			}
+			var ops []string
+			chunks := cutStream(r, stream, nil, 4)
+			ci := 0
+			for steps := 0; steps < 60 && (ci < len(chunks) || steps < 10); steps++ {
+				switch k := r.Intn(10); {
+				case k < 4 && ci < len(chunks):
+					fr.RecvData(chunks[ci])
+					ops = append(ops, "FFeed "+Hx(chunks[ci]))
+					ci++
+				case k < 6:
+					ops = append(ops, "FReady "+CoqBool(fr.MessageReady()))
+				default:
+					m, err := fr.GetMessage()
+					if err != nil {
+						ops = append(ops, "FGet None")
+					} else {
+						ops = append(ops, "FGet (Some "+Hx(append([]byte{}, m...))+")")
+					}
 				}
 			}
-		}
-		cf.Add("inr (FOps "+CoqList(ops)+")", fmt.Sprintf("framer ops stream=%x", stream[:min(len(stream), 64)]))
-		im.Count(fmt.Sprintf("fops %x %d", stream, len(ops)), len(stream) > 2)
-		im.Hist("framer:op-sequence")
+			cf.Add("inr (FOps "+CoqList(ops)+")", fmt.Sprintf("framer ops stream=%x", stream[:min(len(stream), 64)]))
+			im.Count(fmt.Sprintf("fops %x %d", stream, len(ops)), len(stream) > 2)
+			im.Hist("framer:op-sequence")
+		})
 	}
 	// --- the real ReadMessage loop over scripted chunkings
 	for i := 0; i < nStreams; i++ {
-		fr := framer.New()
-		var msgs [][]byte
-		var stream []byte
-		var starts []int
-		nm := 1 + r.Intn(6)
-		for k := 0; k < nm; k++ {
-			m := genFrameMsg(r)
-			if i == 0 && k == 0 {
-				m = r.Bytes(65535)
+		safely(im, "ReadMessage over a scripted chunking", func() {
+			fr := framer.New()
+			var msgs [][]byte
+			var stream []byte
+			var starts []int
+			nm := 1 + r.Intn(6)
+			for k := 0; k < nm; k++ {
+				m := genFrameMsg(r)
+				if i == 0 && k == 0 {
+					m = rampBytes(65535, 7)
+				}
+				msgs = append(msgs, m)
+				starts = append(starts, len(stream))
+				stream = append(stream, fr.SendData(m)...)
 			}
-			msgs = append(msgs, m)
-			starts = append(starts, len(stream))
-			stream = append(stream, fr.SendData(m)...)
-		}
-		cut := len(stream)
-		if r.Chance(35) { // the stream ends anywhere
-			cut = r.Intn(len(stream) + 1)
-			if r.Chance(30) && len(starts) > 1 { // exactly inside a header
-				cut = starts[1+r.Intn(len(starts)-1)] + 1
-			}
-		}
-		mode := r.Intn(8)
-		if len(stream) > 3000 && mode == 0 {
-			mode = 4
-		}
-		var st2 []int
-		for _, s := range starts {
-			if s < cut {
-				st2 = append(st2, s)
-			}
-		}
-		script := cutStream(r, stream[:cut], st2, mode)
-		conn := &scriptConn{chunks: append([][]byte{}, script...)}
-		mc := netceptor.MessageConnFromNetConn(conn)
-		var got [][]byte
-		for {
-			m, err := mc.ReadMessage(context.Background(), time.Second)
-			if err != nil {
-				break
-			}
-			got = append(got, append([]byte{}, m...))
-			if len(got) > len(msgs)+2 {
-				break
-			}
-		}
-		cf.Add(fmt.Sprintf("inr (FStream %s %s)", CoqBytesList(conn.returned), CoqBytesList(got)),
-			fmt.Sprintf("framer stream msgs=%d cut=%d/%d mode=%d", nm, cut, len(stream), mode))
-		split, coalesced := false, false
-		for _, ch := range conn.returned {
-			_ = ch
-		}
-		pos := 0
-		for _, ch := range conn.returned {
-			inside := 0
-			for _, s := range starts {
-				if s > pos && s < pos+len(ch) {
-					inside++
+			cut := len(stream)
+			if r.Chance(35) { // the stream ends anywhere
+				cut = r.Intn(len(stream) + 1)
+				if r.Chance(30) && len(starts) > 1 { // exactly inside a header
+					cut = starts[1+r.Intn(len(starts)-1)] + 1
 				}
 			}
-			if inside > 0 {
-				coalesced = true
+			mode := r.Intn(8)
+			if len(stream) > 3000 && mode == 0 {
+				mode = 4
 			}
-			pos += len(ch)
-			isStart := false
+			var st2 []int
 			for _, s := range starts {
-				if s == pos {
-					isStart = true
+				if s < cut {
+					st2 = append(st2, s)
 				}
 			}
-			if !isStart && pos != cut {
-				split = true
+			script := cutStream(r, stream[:cut], st2, mode)
+			conn := &scriptConn{chunks: append([][]byte{}, script...)}
+			mc := netceptor.MessageConnFromNetConn(conn)
+			var got [][]byte
+			for {
+				m, err := mc.ReadMessage(context.Background(), time.Second)
+				if err != nil {
+					break
+				}
+				got = append(got, append([]byte{}, m...))
+				if len(got) > len(msgs)+2 {
+					break
+				}
 			}
-		}
-		im.Count(fmt.Sprintf("fstream %x %v", stream[:cut], lensOf(conn.returned)), split || coalesced)
-		im.Hist(fmt.Sprintf("framer:stream-mode%d", mode))
-		if cut < len(stream) {
-			im.Hist("framer:stream-cut")
-		}
-		if i < 2 {
-			im.Sample(map[string]interface{}{"kind": "framer-stream", "messages": lensOf(msgs), "cut": cut, "chunks": lensOf(conn.returned)[:min(len(conn.returned), 20)]})
-		}
-		// model-independent oracle: exactly the messages whose frames lie completely before the cut
-		want := 0
-		for k := range msgs {
-			end := len(stream)
-			if k+1 < len(starts) {
-				end = starts[k+1]
+			cf.Add(fmt.Sprintf("inr (FStream %s %s)", smartList(conn.returned), smartList(got)),
+				fmt.Sprintf("framer stream msgs=%d cut=%d/%d mode=%d", nm, cut, len(stream), mode))
+			split, coalesced := false, false
+			for _, ch := range conn.returned {
+				_ = ch
 			}
-			if end <= cut {
-				want++
+			pos := 0
+			for _, ch := range conn.returned {
+				inside := 0
+				for _, s := range starts {
+					if s > pos && s < pos+len(ch) {
+						inside++
+					}
+				}
+				if inside > 0 {
+					coalesced = true
+				}
+				pos += len(ch)
+				isStart := false
+				for _, s := range starts {
+					if s == pos {
+						isStart = true
+					}
+				}
+				if !isStart && pos != cut {
+					split = true
+				}
 			}
-		}
-		ok := len(got) == want
-		for k := 0; ok && k < want; k++ {
-			ok = bytes.Equal(got[k], msgs[k])
-		}
-		if !ok {
-			im.Violate(fmt.Sprintf("ReadMessage over chunking mode %d (cut %d of %d) returned %d messages %v, sent %v", mode, cut, len(stream), len(got), lensOf(got), lensOf(msgs)),
-				"framer-chunking", map[string]interface{}{"messages_hex": hexsOf(msgs), "chunks": lensOf(conn.returned), "cut": cut})
-		}
+			im.Count(fmt.Sprintf("fstream %x %v", stream[:cut], lensOf(conn.returned)), split || coalesced)
+			im.Hist(fmt.Sprintf("framer:stream-mode%d", mode))
+			if cut < len(stream) {
+				im.Hist("framer:stream-cut")
+			}
+			if i < 2 {
+				im.Sample(map[string]interface{}{"kind": "framer-stream", "messages": lensOf(msgs), "cut": cut, "chunks": lensOf(conn.returned)[:min(len(conn.returned), 20)]})
+			}
+			// model-independent oracle: exactly the messages whose frames lie completely before the cut
+			want := 0
+			for k := range msgs {
+				end := len(stream)
+				if k+1 < len(starts) {
+					end = starts[k+1]
+				}
+				if end <= cut {
+					want++
+				}
+			}
+			ok := len(got) == want
+			for k := 0; ok && k < want; k++ {
+				ok = bytes.Equal(got[k], msgs[k])
+			}
+			if !ok {
+				im.Violate(fmt.Sprintf("ReadMessage over chunking mode %d (cut %d of %d) returned %d messages %v, sent %v", mode, cut, len(stream), len(got), lensOf(got), lensOf(msgs)),
+					"framer-chunking", map[string]interface{}{"messages_hex": hexsOf(msgs), "chunks": lensOf(conn.returned), "cut": cut})
+			}
+		})
 	}
 }
 
@@ -297,4 +312,187 @@ func hexsOf(xs [][]byte) []string {
 		}
 	}
 	return o
+}
+
+// HxSmart prints a byte string as a Coq term, writing long runs of the test pattern
+// b, b+1, ... (mod 251) as (ramp n b) (Model/Framer.v) instead of a literal.
+func HxSmart(b []byte) string {
+	var parts []string
+	lit := 0 // start of the pending literal run
+	i := 0
+	for i < len(b) {
+		j := i
+		if b[i] < 251 {
+			for j+1 < len(b) && b[j+1] == byte((int(b[j])+1)%251) {
+				j++
+			}
+		}
+		if j-i+1 >= 48 {
+			if lit < i {
+				parts = append(parts, Hx(b[lit:i]))
+			}
+			parts = append(parts, fmt.Sprintf("(ramp %d %d)", j-i+1, b[i]))
+			i, lit = j+1, j+1
+		} else {
+			i = j + 1
+		}
+	}
+	if lit < len(b) || len(parts) == 0 {
+		parts = append(parts, Hx(b[lit:]))
+	}
+	if len(parts) == 1 {
+		return parts[0]
+	}
+	return "(" + strings.Join(parts, " ++ ") + ")%list"
+}
+
+func smartList(xs [][]byte) string {
+	ys := make([]string, len(xs))
+	for i, x := range xs {
+		ys[i] = HxSmart(x)
+	}
+	return CoqList(ys)
+}
+
+func rampBytes(n int, start byte) []byte {
+	b := make([]byte, n)
+	for i := range b {
+		b[i] = byte((int(start) + i) % 251)
+	}
+	return b
+}
+
+// safely runs f; a panic inside the framer is an oracle violation, not the end of the harness.
+func safely(im *Impl, what string, f func()) (ok bool) {
+	defer func() {
+		if r := recover(); r != nil {
+			im.Violate(fmt.Sprintf("framer panics (%s): %v", what, r), "framer-panic", what)
+			ok = false
+		}
+	}()
+	f()
+	return true
+}
+
+// framerBoundaryCases: frames at the ends and in the middle of the 16-bit length range, through
+// SendData / RecvData / MessageReady / GetMessage and through the real ReadMessage loop with every
+// chunking class.
+func framerBoundaryCases(c *Ctx, im *Impl, cf *CaseFile) {
+	r := c.Rng
+	for _, L := range []int{0, 1, 2, 0x7fff, 0x8000, 0x8001, 65533, 65534, 65535} {
+		m := rampBytes(L, byte(r.Intn(251)))
+		tail := rampBytes(3+r.Intn(40), byte(r.Intn(251)))
+		what := fmt.Sprintf("frame of %d bytes", L)
+		// SendData
+		var out, out2 []byte
+		if !safely(im, what+", SendData", func() { f := framer.New(); out = f.SendData(m); out2 = f.SendData(tail) }) {
+			continue
+		}
+		cf.Add(fmt.Sprintf("inr (FSend %s %s)", HxSmart(m), HxSmart(out)), "framer boundary SendData "+what)
+		im.Count("boundary senddata "+what, true)
+		im.Hist("framer:boundary-length")
+		if len(out) != L+2 || int(out[0])+256*int(out[1]) != L || !bytes.Equal(out[2:], m) {
+			im.Violate("SendData of "+what+" is not length prefix + data", "framer-senddata", nil)
+		}
+		// round trip through the object, header fed byte by byte, body in two pieces
+		safely(im, what+", RecvData/MessageReady/GetMessage", func() {
+			fr := framer.New()
+			var ops []string
+			feed := func(b []byte) { fr.RecvData(b); ops = append(ops, "FFeed "+HxSmart(b)) }
+			ready := func() bool { v := fr.MessageReady(); ops = append(ops, "FReady "+CoqBool(v)); return v }
+			get := func() ([]byte, bool) {
+				g, err := fr.GetMessage()
+				if err != nil {
+					ops = append(ops, "FGet None")
+					return nil, false
+				}
+				g = append([]byte{}, g...)
+				ops = append(ops, "FGet (Some "+HxSmart(g)+")")
+				return g, true
+			}
+			okAll := true
+			ready()
+			feed(out[:1])
+			okAll = okAll && !ready()
+			_, g0 := get()
+			okAll = okAll && !g0
+			feed(out[1:2])
+			okAll = okAll && ready() == (L == 0)
+			if L > 0 {
+				half := 2 + (L-1)/2
+				feed(out[2:half])
+				okAll = okAll && !ready()
+				feed(out[half : len(out)-1])
+				okAll = okAll && !ready()
+				_, g1 := get()
+				okAll = okAll && !g1
+				feed(out[len(out)-1:])
+				okAll = okAll && ready()
+			}
+			feed(out2[:len(out2)-1]) // most of the next frame is already there
+			g, gok := get()
+			okAll = okAll && gok && bytes.Equal(g, m)
+			okAll = okAll && !ready()
+			feed(out2[len(out2)-1:])
+			g, gok = get()
+			okAll = okAll && gok && bytes.Equal(g, tail)
+			_, g3 := get()
+			okAll = okAll && !g3
+			cf.Add("inr (FOps "+CoqList(ops)+")", "framer boundary ops "+what)
+			im.Count("boundary ops "+what, true)
+			if !okAll {
+				im.Violate("RecvData/MessageReady/GetMessage round trip of a "+what+" (header byte by byte, body in pieces) does not return the message exactly when it is complete", "framer-roundtrip", what)
+			}
+		})
+		// the real ReadMessage loop, every chunking class
+		stream := append(append([]byte{}, out...), out2...)
+		starts := []int{0, len(out)}
+		for mode := 0; mode <= 4; mode++ {
+			var script [][]byte
+			switch {
+			case mode == 0 && len(stream) > 400: // one byte at a time at both ends, the middle in one piece
+				for i := 0; i < 100; i++ {
+					script = append(script, stream[i:i+1])
+				}
+				script = append(script, stream[100:len(stream)-100])
+				for i := len(stream) - 100; i < len(stream); i++ {
+					script = append(script, stream[i:i+1])
+				}
+			case mode == 4 && len(stream) > 400: // random sizes up to 5000
+				for i := 0; i < len(stream); {
+					n := 1 + r.Intn(5000)
+					if r.Chance(20) {
+						n = 1 + r.Intn(3)
+					}
+					if i+n > len(stream) {
+						n = len(stream) - i
+					}
+					script = append(script, stream[i:i+n])
+					i += n
+				}
+			default:
+				script = cutStream(r, stream, starts, mode)
+			}
+			safely(im, fmt.Sprintf("%s, ReadMessage, chunking mode %d", what, mode), func() {
+				conn := &scriptConn{chunks: append([][]byte{}, script...)}
+				mc := netceptor.MessageConnFromNetConn(conn)
+				var got [][]byte
+				for len(got) < 4 {
+					g, err := mc.ReadMessage(context.Background(), time.Second)
+					if err != nil {
+						break
+					}
+					got = append(got, append([]byte{}, g...))
+				}
+				cf.Add(fmt.Sprintf("inr (FStream %s %s)", smartList(conn.returned), smartList(got)),
+					fmt.Sprintf("framer boundary stream %s mode=%d", what, mode))
+				im.Count(fmt.Sprintf("boundary stream %s mode %d %v", what, mode, lensOf(conn.returned)[:min(len(conn.returned), 8)]), true)
+				im.Hist(fmt.Sprintf("framer:boundary-stream-mode%d", mode))
+				if len(got) != 2 || !bytes.Equal(got[0], m) || !bytes.Equal(got[1], tail) {
+					im.Violate(fmt.Sprintf("ReadMessage over chunking mode %d of a %s followed by a %d-byte frame returned %v", mode, what, len(tail), lensOf(got)),
+						"framer-chunking", map[string]interface{}{"length": L, "mode": mode, "chunks": lensOf(conn.returned)[:min(len(conn.returned), 40)]})
+				}
+			})
+		}
+	}
 }
